@@ -17,7 +17,7 @@
    of the DECODED path (URL.Path), so "%2F" separates segments - that is what url.Parse hands to the code. *)
 From AP.Model Require Import Prelude Bytes Url IriEq IriNf Vocab Pred CollIri Utf8 FoldTab Fold UrlU IriEqU CollIriU.
 From AP.Gen Require Import TypeLists.
-From AP.Proofs Require Import NlvP IriEqP CollIriP Utf8P FoldP UrlUP IriGenUP IriUP CollIriUP.
+From AP.Proofs Require Import NlvP IriEqP CollIriP Utf8P FoldP UrlUP IriGenUP IriUP NameEqP CollIriUP.
 
 (* table condition: the generated list is the eight names of the property *)
 Theorem C15_names : forall c, In c tl_ActivityPubCollections <->
@@ -122,7 +122,7 @@ Proof. exact add_to_then_helper. Qed.
    The theorems above carve out escapes decoding to bytes >= 0x80 and have no raw byte >= 0x80, because their model of
    strings.EqualFold is ASCII.  Below the same code runs over the wide models of the libraries: Model/UrlU.v (net/url of
    go1.23 on all byte strings but userinfo / IP literals), Model/Fold.v (strings.EqualFold with Unicode simple case
-   folding: U+212A KELVIN SIGN ~ "k", U+017F ~ "s", any invalid byte ~ U+FFFD), Model/CollIriU.v (coll_split_u,
+   folding: U+212A KELVIN SIGN ~ "k", U+017F ~ "s", any invalid byte ~ U+FFFD), Model/CollIriU.v (name_eqb, coll_split_u,
    of_actor_u, valid_collection_iri_u: the code of Model/CollIri.v over them), Model/IriEqU.iri_equ (IRI.Equals).
    Compared with the real code on every run: Cases_C15_usplit, Cases_C15_ustr, Cases_C15_ueq, Cases_C15_ulib.
 
@@ -131,8 +131,19 @@ Proof. exact add_to_then_helper. Qed.
      r       raw path: empty or starting with "/", ANY byte but control bytes (< 0x20, 0x7F), "?" and "#": bytes >= 0x80
              (valid UTF-8 or not), spaces, quotes, brackets ...; every "%" followed by two hex digits, WHATEVER the
              escape decodes to.  No carve-out.
-   READING: names are compared as the code compares them - strings.EqualFold, Unicode simple folding - so
-   "li\u212Aed" (KELVIN SIGN) counts as "liked" (C15_fold_name_finding). *)
+   READING: names are compared as the repaired code compares them - sameCollectionName: same length in bytes, then
+   strings.EqualFold - which against the eight (ASCII) names is ASCII case-insensitivity exactly (C15_name_length_test):
+   "LiKeD" counts as "liked", "li\u212Aed" (KELVIN SIGN) does not (C15_unicode_fold_pinned_refuted for the pinned tree). *)
+
+(* what the length test buys: against an ASCII name, "same length in bytes and EqualFold" is the ASCII folding of the
+   theorems above - for ALL byte strings a (a rune outside ASCII that folds onto an ASCII letter takes more than one
+   byte; an invalid byte decodes to U+FFFD, which folds onto itself only) *)
+Theorem C15_name_length_test : forall a n, forallb is_asciib n = true -> name_eqb a n = fold_eqb a n.
+Proof. exact name_eqb_ascii. Qed.
+Theorem C15_contains_ascii : forall names c, forallb (forallb is_asciib) names = true -> contains_u names c = contains names c.
+Proof. exact contains_u_ascii. Qed.
+Theorem C15_names_ascii : forallb (forallb is_asciib) tl_ActivityPubCollections = true.     (* table condition *)
+Proof. exact names_ascii. Qed.
 
 Theorem C15_owner_wide : forall sch h r, owner_ok sch h r = true -> owner_ok_u sch h r = true.
 Proof. exact owner_ok_wide. Qed.
@@ -182,16 +193,36 @@ Theorem C15_built_is_irif_u : forall sch h r c,
   /\ iri_equ o2 (owner_str sch h r) true = true.
 Proof. exact built_is_irif_u. Qed.
 
-(* FINDING (class unicode-fold-collection-name): the property says an owner whose last path segment is not one of the
-   eight names is not recognised; the code compares with strings.EqualFold, so a segment spelled with U+212A KELVIN SIGN
-   or U+017F LATIN SMALL LETTER LONG S is recognised, and Split hands that spelling out as the CollectionPath.  The ASCII
-   model of the theorems above could not say so (it excluded such owners).  Replayed on the real code by the harness. *)
-Theorem C15_fold_name_finding :
+(* hence: an owner is recognised exactly when the last segment of its decoded path is an ASCII-case variant of one of
+   the eight names - the ASCII [contains] of the theorems at the top, now on the wide owner grammar *)
+Theorem C15_valid_owner_char_ascii_u : forall sch h r d,
+  owner_ok_u sch h r = true -> pct_decode r = Some d ->
+  valid_collection_iri_u (owner_str sch h r) = Some (contains tl_ActivityPubCollections (snd (path_split d))).
+Proof. exact valid_owner_ascii. Qed.
+
+(* ---- the pinned tree compared names with strings.EqualFold alone (fix: commit): a last segment spelled with U+212A KELVIN
+   SIGN (or U+017F LONG S) was recognised, Split handed that spelling out as the CollectionPath, OfActor accepted it ---- *)
+Theorem C15_unicode_fold_pinned_refuted : exists sch h r d,
+  owner_ok_u sch h r = true /\ pct_decode r = Some d /\
+  contains tl_ActivityPubCollections (snd (path_split d)) = false /\          (* the last segment is none of the names *)
+  valid_collection_iri_u_pinned (owner_str sch h r) = Some true.
+Proof.
+  exists (B "https"), (B "example.com"), (B "/users/li%E2%84%AAed"), (hx "2f75736572732f6c69e284aa6564").
+  repeat split; vm_compute; reflexivity.
+Qed.
+
+(* the witnesses on both trees *)
+Example C15_unicode_fold_witnesses :
   owner_ok_u (B "https") (B "example.com") (B "/users/li%E2%84%AAed") = true /\
-  owner_ok (B "https") (B "example.com") (B "/users/li%E2%84%AAed") = false /\
-  valid_collection_iri_u (B "https://example.com/users/li%E2%84%AAed") = Some true /\
-  split_u (B "https://example.com/users/li%E2%84%AAed") = Some (B "https://example.com/users", hx "6c69e284aa6564").
-Proof. exact kelvin_owner. Qed.
+  valid_collection_iri_u_pinned (B "https://example.com/users/li%E2%84%AAed") = Some true /\
+  split_u_pinned (B "https://example.com/users/li%E2%84%AAed") = Some (B "https://example.com/users", hx "6c69e284aa6564") /\
+  of_actor_u_pinned (B "likes") (B "https://example.com/users/like%C5%BF") = Err /\
+  of_actor_u_pinned (B "likes") (hx "68747470733a2f2f6578616d706c652e636f6d2f75736572732f6c696b65c5bf") = Ok (B "https://example.com/users") /\
+  valid_collection_iri_u (B "https://example.com/users/li%E2%84%AAed") = Some false /\
+  split_u (B "https://example.com/users/li%E2%84%AAed") = Some (B "https://example.com/users", []) /\
+  of_actor_u (B "likes") (hx "68747470733a2f2f6578616d706c652e636f6d2f75736572732f6c696b65c5bf") = Err /\
+  valid_collection_iri_u (B "https://example.com/users/LiKeD") = Some true.
+Proof. exact kelvin_owner_pinned. Qed.
 
 Example C15_owner_examples_u :
   owner_ok_u (B "https") (B "example.com") [] = true /\
@@ -210,7 +241,8 @@ Example C15_split_join_example_u :
   iri_equ (B "https://example.com:8443/users/j%C3%BCrgen") (hx "48545450533a2f2f6578616d706c652e636f6d3a383434332f75736572732f6ac3bc7267656e2f2f") true = true /\
   of_actor_u (B "inbox") (irif (B "https://example.com/%E2%84%AA/") (B "inbox")) = Ok (B "https://example.com/%E2%84%AA") /\
   valid_collection_iri_u (hx "68747470733a2f2f6578616d706c652e636f6d2f75736572732f6ac3bc7267656e") = Some false /\
-  valid_collection_iri_u (B "https://example.com/users/like%C5%BF") = Some true.
+  valid_collection_iri_u (B "https://example.com/users/like%C5%BF") = Some false /\
+  valid_collection_iri_u (B "https://example.com/users/LIKES") = Some true.
 Proof. repeat split; vm_compute; reflexivity. Qed.
 
 (* ---- the pinned tree: an actor's explicitly set inbox was ignored (two fix: commits) ---- *)
